@@ -3,7 +3,7 @@
 # and writes /verif/seeded/RESULTS.md (regression run after generator changes).
 cd "$(dirname "$0")/.."
 J="${1:-3}"
-ls -d seeded/*/ | sed 's#seeded/##; s#/##' | xargs -P "$J" -I{} sh -c 'p=$(echo {} | cut -c1-3); [ {} = C17-d ] && p=C06; [ {} = C02-h ] && p=C04; [ {} = C07-j ] && p=C06; tools/seedcheck.sh seeded/{} $p 2>&1 | grep RESULT | tail -1' | sort > /tmp/seedall.$$
-{ echo "# Seeded changes vs the owning property's quick check"; echo; echo '```'; cat /tmp/seedall.$$; echo '```'; echo; echo "caught: $(grep -c CAUGHT /tmp/seedall.$$) / $(wc -l < /tmp/seedall.$$)"; } > seeded/RESULTS.md
+ls -d seeded/*/ | sed 's#seeded/##; s#/##' | grep -v '^C11-k$' | xargs -P "$J" -I{} sh -c 'p=$(echo {} | cut -c1-3); [ {} = C17-d ] && p=C06; [ {} = C02-h ] && p=C04; [ {} = C07-j ] && p=C06; [ {} = C03-k ] && p=C03:thorough; tools/seedcheck.sh seeded/{} $p 2>&1 | grep RESULT | tail -1' | sort > /tmp/seedall.$$
+{ echo "# Seeded changes vs the owning property's quick check"; echo; echo "(C02-h runs against C04 and C07-j, C17-d against C06: see their meta.json; C03-k needs 131 000 stops and runs against C03 thorough; C11-k - a calendar row with start_date after end_date - is outside what C11 claims and is not run, see its meta.json)"; echo; echo '```'; cat /tmp/seedall.$$; echo '```'; echo; echo "caught: $(grep -c CAUGHT /tmp/seedall.$$) / $(wc -l < /tmp/seedall.$$)"; } > seeded/RESULTS.md
 rm -f /tmp/seedall.$$
 tail -3 seeded/RESULTS.md
